@@ -99,8 +99,16 @@ def gen_term_args(rng, cls: str, lo: float, hi: float) -> dict[str, Any]:
         a = dict(zip(("start", "end"), _pts(rng, lo, hi, 2)))
     elif cls == "Triangle":
         a = dict(zip(("left", "top", "right"), _pts(rng, lo, hi, 3)))
+        if rng.random() < 0.05:  # infinite shoulder
+            a[C(rng, ["left", "right"])] = C(rng, [-inf, inf]) if rng.random() < 0.2 else None
+            a = {k: ((-inf if k == "left" else inf) if v is None else v) for k, v in a.items()}
     elif cls in ("Trapezoid", "PiShape"):
         a = dict(zip(("bottom_left", "top_left", "top_right", "bottom_right"), _pts(rng, lo, hi, 4)))
+        if cls == "Trapezoid" and rng.random() < 0.05:
+            if rng.random() < 0.5:
+                a["bottom_left"] = a["top_left"] = -inf
+            else:
+                a["bottom_right"] = a["top_right"] = inf
     elif cls == "Bell":
         a = {"center": _pts(rng, lo, hi, 1)[0], "width": w * C(rng, [0.05, 0.2, 0.5]), "slope": C(rng, [1.0, 2.0, 3.5, -2.0])}
     elif cls in ("Cosine", "Spike"):
@@ -234,7 +242,8 @@ def gen_spec(rng, **knobs) -> dict:
             r = rng.random()
             cls = C(rng, shapes) if r < 0.9 else ("Function" if r < 0.96 else "Constant")
             terms.append(gen_term(rng, cls, in_terms[t], lo, hi, names_in, [], True))
-        inputs.append({"name": names_in[j], "min": fenc(lo), "max": fenc(hi), "lock_range": rng.random() < k["input_lock_range"],
+        rlo, rhi = (lo, hi) if rng.random() > 0.06 else C(rng, [(-inf, inf), (lo, inf), (-inf, hi)])  # terms stay in the finite window
+        inputs.append({"name": names_in[j], "min": fenc(rlo), "max": fenc(rhi), "lock_range": rng.random() < k["input_lock_range"],
                        "enabled": rng.random() >= k["disabled"], "terms": terms})
     outputs = []
     for j in range(n_out):
@@ -268,8 +277,16 @@ def gen_spec(rng, **knobs) -> dict:
             typ = "Automatic" if rng.random() < 0.6 else {"takagi": "TakagiSugeno", "tsukamoto": "Tsukamoto", "inverse": "Automatic"}[fam]
             dz = {"cls": C(rng, WEIGHTED), "type": typ}
             agg = None if rng.random() < 0.5 else C(rng, sn)
+            if rng.random() < 0.15:
+                lo, hi = C(rng, [(-inf, inf), (-inf, inf), (lo, inf), (-inf, hi)])  # the library's default range is (-inf, inf)
+        if rng.random() < k.get("missing_operators", 0.02):
+            if rng.random() < 0.5:
+                agg = None
+            else:
+                dz = None
         if k["cascade"]:
-            d = nan if rng.random() < 0.55 else C(rng, [lo, hi, lo + (hi - lo) * rng.random(), hi + 1.0, lo - 1.0, inf, -inf])
+            flo, fhi = (lo if math.isfinite(lo) else -10.0), (hi if math.isfinite(hi) else 10.0)
+            d = nan if rng.random() < 0.55 else C(rng, [flo, fhi, flo + (fhi - flo) * rng.random(), fhi + 1.0, flo - 1.0, inf, -inf])
             lp, lr = rng.random() < 0.4, rng.random() < 0.35
         else:
             d, lp, lr = nan, False, False
@@ -296,8 +313,11 @@ def gen_spec(rng, **knobs) -> dict:
             con = [gen_prop(rng, C(rng, outputs), 1 if rng.random() < 0.3 else 0, False) for _ in range(ncon)]
             rules.append({"ant": ant, "con": con, "weight": None if rng.random() < 0.7 else fenc(C(rng, [0.5, 0.25, 0.75, 0.1, 1.5, 0.0, 1.0])),
                           "enabled": rng.random() >= k["disabled"]})
-        blocks.append({"name": f"b{b}", "enabled": rng.random() >= k["disabled"] / 2, "conjunction": C(rng, tn),
-                       "disjunction": C(rng, sn), "implication": C(rng, tn), "activation": act, "rules": rules})
+        blk = {"name": f"b{b}", "enabled": rng.random() >= k["disabled"] / 2, "conjunction": C(rng, tn),
+               "disjunction": C(rng, sn), "implication": C(rng, tn), "activation": act, "rules": rules}
+        if rng.random() < k.get("missing_operators", 0.02):
+            blk[C(rng, ["conjunction", "disjunction", "implication", "activation"])] = None
+        blocks.append(blk)
     spec = {"name": "sim", "inputs": inputs, "outputs": outputs, "blocks": blocks}
     spec["flags"] = {"fn_reads_output": fn_reads_output(spec)}
     return spec
@@ -442,8 +462,13 @@ def draw_input(rng, var: dict, special: float = 0.2) -> float:
     r = rng.random()
     if r < special * 0.35:
         return nan
+    if not (math.isfinite(lo) and math.isfinite(hi)):
+        bp = [b for b in breakpoints(var)]
+        lo, hi = (min(bp) if bp else 0.0) if not math.isfinite(lo) else lo, (max(bp) if bp else 1.0) if not math.isfinite(hi) else hi
+        if not lo < hi:
+            lo, hi = lo - 1.0, hi + 1.0
     if r < special * 0.5:
-        return C(rng, [inf, -inf])
+        return C(rng, [inf, -inf, inf, -inf, 1e308, -1e308, 5e-324, 1e-300])
     if r < special:
         return C(rng, [lo - (hi - lo) * 0.25, hi + (hi - lo) * 0.25, lo - 1e-9, hi + 1e-9])
     if r < special + 0.1:
